@@ -175,6 +175,11 @@ impl SqliteStoreBuilder {
             .max_connections(self.max_connections)
             .idle_timeout(self.idle_timeout)
             .max_lifetime(self.max_lifetime)
+            // Do not ping idle connections on acquire: SQLite connections are local and cannot go
+            // stale, and a caller cancelled during that ping (e.g. a dropped `begin()` future) makes
+            // sqlx close the connection. For the single-connection in-memory configuration that
+            // silently replaces the whole database with an empty one.
+            .test_before_acquire(false)
             .connect(&self.url)
             .await?;
 
